@@ -6,6 +6,10 @@ props = [json.loads(l) for l in open(os.path.join(VERIF, 'properties.jsonl'))]
 ids = [p['id'] for p in props]
 
 CHECKS = {
+ 'C01': dict(engine='E1 enum', category='exploration', design_ref='3 C01',
+   technique='bounded-exhaustive enumeration of (program, value, configuration) round trips against a schema-driven reference codec and Spyne\'s own client',
+   text='Every atom of a 42-type alphabet in every one of 12 structural positions, and every object shape with up to 2 (quick) / 3 (thorough) fields, with every conformant boundary value / every None-empty-one-two container assignment, through XmlDocument, Soap11 and Soap12 under validator None/soft/lxml on the real ServerBase pipeline. Requests are built from the published XML Schema by an independent codec, so the check covers both directions with a non-Spyne peer; the loopback client repeats every wrapped-style call with Spyne\'s own client code. The space is finite and enumerated completely.',
+   note='Reference codec (vf/ref/xsdcodec.py, xsdlex.py) and lxml are trusted; interactions of 4+ sibling fields, and values outside the boundary alphabets, are not explored.'),
  'C08': dict(engine='E1 enum', category='exploration', design_ref='3 C08',
    technique='bounded-exhaustive enumeration of primitive values and XSD literals against reference lexical mappings',
    text='Exhaustive over the stated alphabets (all 1681 UTC offsets x instants x microsecond classes, all 8-bit and (thorough) 16-bit integers, boundary values of every other primitive, every alternative lexical form the XSD grammar allows for those values) through the real to_unicode/from_unicode handlers of ProtocolBase, XmlDocument and Soap11; each printed literal is validated by lxml as the advertised xs: type and each literal read back is compared with an independent reference parser. A coverage statement over a finite space, not a sample.',
